@@ -219,8 +219,22 @@ pub fn gen_cfg(rng: &mut Rng, prop: u32, kind_fixed: Option<Kind>) -> RunCfg {
     let (universe, len) = if light() { (universe.min(8), len.min(7)) } else { (universe, len) };
     // thorough tier: one run in 25 is an order of magnitude longer on a larger universe
     let (universe, len) = if thorough() && !light() && hasher != HasherKind::Collide && rng.chance(1, 25) { (universe.max(200 + rng.below(1300) as u32), 200 + rng.usize(500)) } else { (universe, len) };
+    // big regime: thousands of elements, loaded in bulk by the first step, so that code which
+    // switches strategy at some size (64, 512, 1024 …) is exercised on both sides of it
+    let (universe, len) = if !light() && hasher != HasherKind::Collide && rng.chance(1, if thorough() { 400 } else { 800 }) {
+        let u = match rng.below(4) {
+            0 => *rng.pick(&[511u32, 512, 513, 1023, 1024, 1025, 2047, 2048, 2049, 4095, 4096, 4097]),
+            1 => 500 + rng.below(600) as u32,
+            _ => 500 + rng.below(5500) as u32,
+        };
+        (u, 10 + rng.usize(24))
+    } else {
+        (universe, len)
+    };
     RunCfg { kind, hasher, ctor, universe, palette, len, weights }
 }
+
+pub const BIG: u32 = 500;
 
 pub struct Gen {
     pub rng: Rng,
@@ -378,6 +392,21 @@ impl Gen {
     }
 
     pub fn step(&mut self, m: &Model, kind: Kind, cfg: &RunCfg) -> Step {
+        if cfg.universe >= BIG && m.is_empty() && self.rng.chance(3, 4) {
+            // the bulk load of a big run (again whenever the queue has been emptied)
+            let n = cfg.universe as usize / 2 + self.rng.usize(cfg.universe as usize);
+            let pairs: Vec<P3> = (0..n)
+                .map(|_| {
+                    let k = self.rng.below(cfg.universe as u64 + 1) as u32;
+                    (k, self.prio(cfg, None, m), self.fresh_payload())
+                })
+                .collect();
+            return match self.rng.below(4) {
+                0 => Step::FromVec { extra: pairs },
+                1 => Step::FromIter { extra: pairs, hint: self.hint() },
+                _ => Step::Extend { pairs, hint: self.hint() },
+            };
+        }
         let fam = ALL_FAM[self.rng.weighted(&cfg.weights)];
         self.step_of(fam, m, kind, cfg)
     }
@@ -508,7 +537,11 @@ impl Gen {
                 let fault = if self.alloc_faults && self.rng.chance(1, 2) { Some((self.rng.below(5), self.rng.chance(1, 2))) } else { None };
                 Step::TryReserve { n: nn, exact: self.rng.chance(1, 2), fault }
             }
-            Fam::Extend => Step::Extend { pairs: self.pairs(cfg, m, 60), hint: self.hint() },
+            Fam::Extend => {
+                // big runs: batches on both sides of the push-versus-rebuild decision
+                let max = if cfg.universe >= BIG && self.rng.chance(1, 2) { (2 * n + 6).min(12_000) } else { 60 };
+                Step::Extend { pairs: self.pairs(cfg, m, max), hint: self.hint() }
+            }
             Fam::Append => Step::Append { pairs: self.pairs(cfg, m, 2 * n + 6), via_vec: self.rng.chance(1, 3) },
             Fam::FromVec => Step::FromVec { extra: self.pairs(cfg, m, 12) },
             Fam::FromIter => Step::FromIter { extra: self.pairs(cfg, m, 12), hint: self.hint() },
@@ -645,6 +678,12 @@ pub fn run_hist(cfg: &RunCfg, mut src: StepSrc, opts: &HistOpts) -> RunResult {
         let n = q.len();
         cx.light = n > 200;
         cx.deep = if light() { n <= 6 && i % 3 == 0 } else { n <= 64 || i % 8 == 0 };
+        if n >= 512 {
+            cx.probe(if n >= 2048 { "step_on_size_ge_2048" } else { "step_on_size_ge_512" });
+            if cx.deep {
+                cx.probe("full_drain_of_a_clone_on_size_ge_512");
+            }
+        }
         res.max_size = res.max_size.max(n);
         if n >= 3 {
             seen_big = true;
